@@ -76,6 +76,10 @@ func (fr *Frame) execCallInner(st *State, c *ssa.CallCommon, res ssa.Value, pos 
 	fr.countCall(st, c)
 	if c.IsInvoke() {
 		recv := fr.val(c.Value)
+		if nt, ok := types.Unalias(c.Value.Type()).(*types.Named); ok && nt.Obj().Pkg() != nil && strings.HasPrefix(nt.Obj().Pkg().Path(), "github.com/tokenized/spynode") && !v.eng.isCallbackIface(c) && recv.T != "" {
+			// a method call on a nil value of one of the repository's own interfaces panics
+			fr.safetyObl(st, "nil", not(eq(recv.T, "(mk-iface 0 0)")), "method call on a nil "+nt.Obj().Name()+": "+c.Method.Name(), pos)
+		}
 		if em := v.eng.extInvoke(c); em != nil {
 			v.usedExt[em.name] = em.doc
 			out := em.apply(fr, st, c, append([]Val{recv}, args...), res)
